@@ -127,6 +127,20 @@ func (e *Exec) goValueOf(fr *frame, t types.Type, v Value) (interface{}, bool) {
 			}
 			return out, true
 		}
+	case Array:
+		if at, ok := t.Underlying().(*types.Array); ok {
+			if b, ok := at.Elem().Underlying().(*types.Basic); ok && b.Kind() == types.Uint8 {
+				out := make([]byte, len(x))
+				for i, c := range x {
+					ct := c.(*Term)
+					if !ct.IsConst() {
+						return nil, false
+					}
+					out[i] = byte(ct.val)
+				}
+				return out, true
+			}
+		}
 	case Iface:
 		return e.goValue(fr, x)
 	case Ptr:
